@@ -210,6 +210,17 @@ class SavePoints:
                 self.viol.append(V('save-raised', 'save-raised:%s:%s:%s' % (point, lname, type(exc).__name__), '%s: saving at %s raised %r' % (self.label, point, exc)))
                 return
             saved[lname] = b1
+            # the bundle made with dereference=True (what the in-memory persister stores) holds the same saved state, written with
+            # the same loader
+            try:
+                bd = c14.norm(strip(copy.deepcopy(dict(plumpy.Bundle(proc, sctx, dereference=True)))))
+                self.obs['dereferenced_bundles'] = self.obs.get('dereferenced_bundles', 0) + 1
+                if bd != ref:
+                    keys = c14._diffkeys(bd, ref)
+                    self.viol.append(V('bundle-differs', 'bundle-differs:%s:%s:%s:dereferenced' % (keys, point, lname), '%s: the bundle made with dereference=True differs from the plain one in %s at %s (%s loader)' % (
+                        self.label, keys, point, lname)))
+            except BaseException as exc:  # noqa: BLE001
+                self.viol.append(V('save-raised', 'save-raised:%s:%s:dereferenced:%s' % (point, lname, type(exc).__name__), '%s: Bundle(..., dereference=True) at %s raised %r' % (self.label, point, exc)))
             if 'stepper_state' in b1:
                 self.obs['stepper_states'] += 1
             want = accessors(proc)
